@@ -15,7 +15,7 @@ level: header / data / zero blocks of 512 bytes), SHA-256, JSON encoding, `time.
 -/
 import Apko.Model.Text
 import Apko.Generated.Oci
-import Apko.Generated.Glue
+import Apko.Generated.GlueLayer
 
 namespace Apko.Oci
 
